@@ -260,7 +260,7 @@ def gen_inclass(rng, knobs=None):
     n_mws_target = rint(rng, kn.n_mws)
     n_obs_target = rint(rng, kn.n_obs)
 
-    def build_bp(depth, avail_types, budget):
+    def build_bp(depth, avail_types, budget, own_prefix=False, under_prefix=False):
         """budget: dict with remaining handlers/mws/obs to place in this subtree."""
         items = []
         local_types = list(avail_types)
@@ -321,7 +321,7 @@ def gen_inclass(rng, knobs=None):
                     counters["label"] += 1
                     if rng.random() < 0.2:
                         opts["prefix"] += "/{np%d}" % counters["label"]
-                child = build_bp(depth + 1, local_types, it[2])
+                child = build_bp(depth + 1, local_types, it[2], own_prefix=bool(opts.get("prefix")), under_prefix=under_prefix or bool(opts.get("prefix")))
                 if kn.avoid_known and opts.get("prefix", "").endswith("}") and any(x[0] == "fallback" for x in child["items"]):
                     # known finding (router.rs assign_fallbacks): a prefix ending in a parameter + a fallback in the
                     # nested blueprint panics; exercised by a dedicated regression case instead
@@ -329,7 +329,10 @@ def gen_inclass(rng, knobs=None):
                 items.append(["nest", opts, child])
             else:
                 items.append(it)
-        if rng.random() < (0.5 if depth == 0 else 0.4):
+        # documented rule ("Routing logic can't be ambiguous"): a fallback registered below a path prefix claims every
+        # unmatched path under that prefix, so it may only sit in the blueprint that introduces the prefix
+        fallback_allowed = depth == 0 or own_prefix or not under_prefix
+        if fallback_allowed and rng.random() < (0.5 if depth == 0 else 0.4):
             items.insert(rng.randint(0, len(items)), ["fallback", new_fb([t for t in local_types if spec["types"][t]["disc"] != "moved"])])
         return {"items": items}
 
